@@ -4,6 +4,7 @@ import (
 	"net/http"
 	"net/http/httptest"
 	"net/url"
+	"strconv"
 	"strings"
 	"testing"
 	"time"
@@ -20,7 +21,8 @@ func vfFormPost(path string, form url.Values) *http.Request {
 }
 
 // TestVerifC17: for every `dest <hex> -` op emit
-//   <hex filtered> <hex Location from http.Redirect> <parseOK> <n handler locations> {<name>=<hex Location>}
+//
+//	<hex filtered> <hex Location from http.Redirect> <parseOK> <n handler locations> {<name>=<hex Location>}
 func TestVerifC17(t *testing.T) {
 	io := vfOpen(t)
 	defer io.close()
@@ -37,10 +39,27 @@ func TestVerifC17(t *testing.T) {
 			io.emit("bad-op")
 			continue
 		}
+		// carrier of the destination: `-` the login_destination form field; `ref` / `ref2`: NO such field, the
+		// string is the path of a Referer that names keymasterd's own host (absolute / scheme-relative)
+		carrier := f[2]
+		addCarrier := func(r *http.Request) *http.Request {
+			switch carrier {
+			case "ref":
+				r.Header.Set("Referer", "https://"+r.Host+s)
+			case "ref2":
+				r.Header.Set("Referer", "//"+r.Host+s)
+			}
+			return r
+		}
 		form := url.Values{}
-		form.Set("login_destination", s)
+		if carrier == "-" {
+			form.Set("login_destination", s)
+		} else if carrier != "ref" && carrier != "ref2" {
+			io.emit("bad-op")
+			continue
+		}
 		// 1. the filter itself
-		req := vfFormPost("/api/v0/login", form)
+		req := addCarrier(vfFormPost("/api/v0/login", form))
 		filtered := getLoginDestination(req)
 		u, err := url.Parse(filtered)
 		parseOK := err == nil && u.Scheme == "" && u.Host == ""
@@ -53,13 +72,13 @@ func TestVerifC17(t *testing.T) {
 		state.Config.Base.AllowedAuthBackendsForWebUI = []string{proto.AuthTypePassword}
 		form.Set("username", "username")
 		form.Set("password", "password")
-		hr, p := vfServe(state.loginHandler, vfFormPost("/api/v0/login", form))
+		hr, p := vfServe(state.loginHandler, addCarrier(vfFormPost("/api/v0/login", form)))
 		if p != nil {
 			locs = append(locs, "login=PANIC")
 		} else if hr.Code == 302 {
 			locs = append(locs, "login="+vfHex(hr.Header().Get("Location")))
 		} else {
-			locs = append(locs, "login=STATUS"+http.StatusText(hr.Code))
+			locs = append(locs, "login=STATUS"+strconv.Itoa(hr.Code))
 		}
 		// 3b. bootstrap OTP second factor
 		state.Config.Base.AllowedAuthBackendsForWebUI = []string{proto.AuthTypeBootstrapOTP}
@@ -71,9 +90,11 @@ func TestVerifC17(t *testing.T) {
 			t.Fatal(err)
 		}
 		form2 := url.Values{}
-		form2.Set("login_destination", s)
+		if carrier == "-" {
+			form2.Set("login_destination", s)
+		}
 		form2.Set("OTP", testBootstrapOTP)
-		breq := vfFormPost(bootstrapOtpAuthPath, form2)
+		breq := addCarrier(vfFormPost(bootstrapOtpAuthPath, form2))
 		breq.AddCookie(vfAuthCookie(t, state, "bob", AuthTypePassword))
 		hr, p = vfServe(state.BootstrapOtpAuthHandler, breq)
 		if p != nil {
@@ -81,7 +102,7 @@ func TestVerifC17(t *testing.T) {
 		} else if hr.Code == 302 {
 			locs = append(locs, "bootstrap="+vfHex(hr.Header().Get("Location")))
 		} else {
-			locs = append(locs, "bootstrap=STATUS"+http.StatusText(hr.Code))
+			locs = append(locs, "bootstrap=STATUS"+strconv.Itoa(hr.Code))
 		}
 		// 3c. federated login through the real handlers: the destination is parked at
 		// /auth/oauth2/login and used by the callback (stub IdP of the repo's own tests on :12345)
@@ -91,18 +112,19 @@ func TestVerifC17(t *testing.T) {
 			RedirectURL: "https://keymaster.example.com" + redirectPath}
 		state.Config.Oauth2.UserinfoUrl = "http://localhost:12345/userinfo"
 		oloc := "oauth2=STATUSbegin"
-		if br, p := vfServe(state.oauth2DoRedirectoToProviderHandler, vfFormPost(oauth2LoginBeginPath, form2)); p == nil && br.Code == 302 {
+		if br, p := vfServe(state.oauth2DoRedirectoToProviderHandler, addCarrier(vfFormPost(oauth2LoginBeginPath, form2))); p == nil && br.Code == 302 {
 			if u, err := url.Parse(br.Header().Get("Location")); err == nil {
 				cb := httptest.NewRequest("GET", redirectPath+"?code=x&state="+url.QueryEscape(u.Query().Get("state")), nil)
 				for _, c := range br.Result().Cookies() {
 					cb.AddCookie(c)
 				}
+				addCarrier(cb)
 				if cr, p := vfServe(state.oauth2RedirectPathHandler, cb); p != nil {
 					oloc = "oauth2=PANIC"
 				} else if cr.Code == 302 {
 					oloc = "oauth2=" + vfHex(cr.Header().Get("Location"))
 				} else {
-					oloc = "oauth2=STATUS" + http.StatusText(cr.Code)
+					oloc = "oauth2=STATUS" + strconv.Itoa(cr.Code)
 				}
 			}
 		}
